@@ -137,6 +137,49 @@ func c01AsciiSink(p *Prog) *RuleResult {
 					r.OK(key+" (constant at every call site)", true, fmt.Sprintf("the parameter is a constant ASCII string at all %d call sites of the helper", sites))
 					return
 				}
+				// a printing block split off into a helper: every call site passes what the caller itself
+				// would be allowed to print there (constant ASCII, a reviewed source of that caller, or
+				// under !ASCIIOnly)
+				if pi >= 0 && sites > 0 && !p.addressTaken(fn) {
+					allOK := true
+					var usedKeys []string
+					for _, caller := range p.ModuleFuncs() {
+						eachInstr(caller, func(cb *ssa.BasicBlock, cin ssa.Instruction) {
+							cc, ok := cin.(ssa.CallInstruction)
+							if !ok || cc.Common().StaticCallee() != fn || pi >= len(cc.Common().Args) {
+								return
+							}
+							a := cc.Common().Args[pi]
+							if ss, ok := constStrings(a, 0); ok {
+								for _, sv := range ss {
+									for i := 0; i < len(sv); i++ {
+										if sv[i] >= 0x80 {
+											allOK = false
+										}
+									}
+								}
+								return
+							}
+							if asciiOnlyFalseFact(cb) {
+								return
+							}
+							ck := FuncName(caller) + " " + sinkDesc(a)
+							if _, ok := c01SinkTable[ck]; ok {
+								usedKeys = append(usedKeys, ck)
+								return
+							}
+							allOK = false
+						})
+					}
+					if allOK {
+						for _, k := range usedKeys {
+							used[k] = true
+						}
+						r.Exceptions++
+						r.OK(key+" (reviewed at every call site)", true, fmt.Sprintf("the parameter is constant ASCII, under !ASCIIOnly or a reviewed source of the caller at all %d call sites of the helper", sites))
+						return
+					}
+				}
 			}
 			if asciiOnlyFalseFact(b) {
 				r.OK(key+" (under !ASCIIOnly)", true, "printed only when the charset is not ASCII")
